@@ -215,6 +215,37 @@ func propSpecs() map[string]*PropSpec {
 			Assume: commonAssume,
 		},
 		{
+			ID: "C16", Sub: "spg", Level: "model_checking",
+			Harnesses: []HSpec{
+				{Name: "H16a", Reach: []string{"defaults"}},
+				{Name: "H16p", Reach: []string{"preset", "none"}},
+				{Name: "H16l", Reach: []string{"lists"}},
+			},
+			Bounds: map[string]string{
+				"H16a":    "the five class flags and the named combinations through Alphabet() of single-class recipes, NewCharRecipe / NewWLRecipe defaults (Length 1..3), MaxTrials, MaxFailRate - compared with literals typed from the documentation",
+				"H16p":    "each of the seven exported presets, called after nothing or after two calls of any other preset (sequences matter for shared cached state), with symbolic draws: the output is the character of the documented set selected by the draw, two independent calls give equal separators iff their draws are equal (solver queries), entropy = log2(|set|^length)",
+				"H16l":    "every entry of AgileWords and AgileSyllables as built by the executed package initialiser against testdata/agwordlist.txt and testdata/agsyllables.txt (read by the driver on every run), lower-case, duplicate-free; NewWordList keeps every entry",
+				"outside": "nothing of the property's quantifier is left out; the list comparison and the constants are concrete execution of the initialisers through the same engine, only the preset statements involve the solver",
+			},
+			Assume: commonAssume,
+		},
+		{
+			ID: "C17", Sub: "opgen", Level: "model_checking",
+			Harnesses: []HSpec{
+				{Name: "HO17c", Quick: P{"classlists": 5, "lengths": 2}, Thorough: P{"classlists": 8, "lengths": 2}, Reach: []string{"ran", "password", "entropy", "refused"}},
+				{Name: "HO17c", Label: "default-length", Quick: P{"classlists": 2, "lengths": 3}, Thorough: P{"classlists": 4, "lengths": 3}, Reach: []string{"ran", "password"}},
+				{Name: "HO17w", Reach: []string{"ran", "password", "entropy", "unknown-list"}},
+				{Name: "HO17u", Reach: []string{"usage"}},
+			},
+			Bounds: map[string]string{
+				"HO17c":   "opgen characters with --length 1, 8 or absent (20); --allow/--require/--exclude each absent or one of the class lists (digits; uppercase,lowercase; a list with blanks after the commas; a list with an unknown word; three classes with blanks; ambiguous; a list with blanks around the commas); --entropy on/off; main() is executed from its SSA with os.Args set, package flag modelled by its documented contract; the password printed is compared with the password of the documented library recipe on the same (symbolic) random draws; in the engine MaxTrials is 2",
+				"HO17w":   "opgen words with --size 1, 3 or absent (4); --file with three small files (one with a duplicate word) or --list absent/words/syllables/unknown; every separator class and an unknown one; every capitalisation scheme and an unknown one; --entropy on/off; generation from the 18 328-word shipped lists with symbolic draws is skipped in the engine (entropy only)",
+				"HO17u":   "missing subcommand, unknown subcommand, unknown flag, misspelt flag, malformed integer, flag without its value",
+				"outside": "the text-level behaviour of package flag is a model written from its documentation (flag.go is not executed); the process boundary (exit status, stdout/stderr) is the engine's event log, confirmed on the built binary only for counterexamples; other flag spellings and values",
+			},
+			Assume: append([]string{"package flag (NewFlagSet/Int/String/Bool/Parse with ExitOnError), io/ioutil.ReadFile, os.Exit and log.Fatalln are modelled by their documented contracts"}, commonAssume...),
+		},
+		{
 			ID: "C11", Sub: "spg", Level: "model_checking",
 			Harnesses: []HSpec{
 				{Name: "H11a", Quick: P{"t": 3, "b": 3}, Thorough: P{"t": 3, "b": 3, "anytype": 1}, Reach: []string{"indexed", "roundtrip", "non-ascii"}},
